@@ -14,13 +14,13 @@ Open Scope Z_scope.
 
 (* -- clause 1: defining never invokes a user function ------------------------------------------------------------ *)
 (* Defining any sequence of transformations (element-wise, sampling, persistence, mapPartitions) leaves the log of
-   user-function calls empty and yields exactly that lineage; hence a program "define, then one query" logs 0 calls
-   before the query.  (True by construction of the evaluator; the content is that the implementation agrees: the
+   user-function calls empty (it is observed after every single definition: all observations are 0) and yields
+   exactly that lineage; hence a program "define, then one query" logs 0 calls before the query.  (True by construction of the evaluator; the content is that the implementation agrees: the
    harness measures the log after the definitions on every generated case.) *)
-Theorem define_silent : forall stages, define_all stages = (stages, []).
+Theorem define_silent : forall stages, define_all stages = (stages, [], repeat 0%nat (S (length stages))).
 Proof. exact define_all_silent. Qed.
 Theorem program_defines_silently : forall stages q parts,
-  run_program stages q parts = (0%nat, run_query q stages parts).
+  run_program stages q parts = (repeat 0%nat (S (length stages)), run_query q stages parts).
 Proof. exact program_spec. Qed.
 
 (* -- clause 2: single-pass actions ------------------------------------------------------------------------------- *)
